@@ -310,7 +310,13 @@ fn extract_source_map<R: Read>(
                         let final_path = if source_path.is_absolute() {
                             source_path
                         } else {
-                            let folder = file_reader.parent(Path::new(file_path)).unwrap();
+                            let folder =
+                                file_reader.parent(Path::new(file_path)).ok_or_else(|| {
+                                    std::io::Error::new(
+                                        std::io::ErrorKind::NotFound,
+                                        "Source file has no parent folder",
+                                    )
+                                })?;
                             folder.join(source_path)
                         };
 
